@@ -109,6 +109,13 @@ def run(ctx, chk):
         if info['query'] is None:
             continue
         p = info['path']
+        gq = [n for n, name, ef in info['calls'] if name.endswith('::is_within_grace_period')]
+        if gq:
+            qn0 = info['query'][0]
+            chk.ob('C13.P6', 'grace:decided-after-the-query', all(n > qn0 for n in gq), p.where[2],
+                   'is_within_grace_period() evaluated %s the chrony query on this path (the FreeRunning/Unknown decision must use the '
+                   'age of the last good answer when the silence is reported, not before a query that can take seconds)' %
+                   ('after' if all(n > qn0 for n in gq) else 'BEFORE'))
         msg = pm.message_of(info)
         if msg is None and p.kind == 'panic':
             continue        # the mailbox lookup failed and the thread panics: nothing to classify
